@@ -609,6 +609,40 @@ def fact_lins(facts, _simple_only=False):
         if _simple_only and not _simple_fact(t):
             continue
         _fact_lin(t, pol, out, () if _simple_only else simple)
+    if not _simple_only and len(out) <= 60:
+        # a bound on floor(x / k) is a bound on x:  floor(x / k) >= q  =>  x >= k * q ;  floor(x / k) <= q  =>  x <= k * q + k - 1
+        import math
+        fds = {at for g in out for at in g.t if isinstance(at, tuple) and at[:1] == ("fd",)}
+        zero = Lin()
+        for at in fds:
+            lo = hi = None
+            rel = [g for g in out if at in g.t]
+            for g1 in rel:
+                for g2 in [zero] + out:
+                    s_ = g1 + g2
+                    if len(s_.t) == 1 and at in s_.t:
+                        a = s_.t[at]
+                        b = -s_.c / a
+                        if a > 0:
+                            b = math.ceil(b)
+                            lo = b if lo is None else max(lo, b)
+                        else:
+                            b = math.floor(b)
+                            hi = b if hi is None else min(hi, b)
+            if lo is not None and lo >= 1:
+                out.append(at[1] - at[2] * lo)
+            if hi is not None:
+                out.append(-at[1] + (at[2] * hi + at[2] - 1))
+        # max(xs) <= U  =>  every x <= U ;  min(xs) >= L  =>  every x >= L
+        for g in list(out):
+            if len(g.t) == 1:
+                (at, a), = g.t.items()
+                if isinstance(at, tuple) and at[:1] == ("max",) and a < 0:
+                    U = math.floor(-g.c / a)
+                    out.extend(Lin(c=U) - x for x in at[1])
+                elif isinstance(at, tuple) and at[:1] == ("min",) and a > 0:
+                    L = math.ceil(-g.c / a)
+                    out.extend(x - Lin(c=L) for x in at[1])
     return out
 
 
@@ -683,11 +717,23 @@ def bounds(v, facts, depth=0, _simple_only=False, _fl=None):
             facts = tuple(f for f in facts if _simple_fact(f[0]))
         _fl = _fact_lins_cached(tuple(facts), _simple_only) if facts else ()
     fl = _fl
+    v0 = v
     if depth == 0 and facts and any(isinstance(at, tuple) and at[:1] in (("min",), ("max",)) for at in v.t):
         # an extreme decided by the facts at hand (it may have been formed earlier, under fewer facts)
         for at, coef in list(v.t.items()):
             if isinstance(at, tuple) and at[:1] in (("min",), ("max",)) and not any(isinstance(x, tuple) and x[:1] in (("min",), ("max",)) for a in at[1] for x in a.t):
                 keep = list(at[1])
+                # max(xs) >= L known and x < L  =>  x is not the maximum (min: the other way round)
+                elo, ehi = atom_bounds(at, facts, [g for g in fl if len(g.t) == 1 and at in g.t], 3)
+                if at[0] == "max" and elo is not None:
+                    keep2 = [a for a in keep if not (lambda h: h is not None and h < elo)(bounds(a, facts, 1, _fl=fl)[1])]
+                    keep = keep2 or keep
+                if at[0] == "min" and ehi is not None:
+                    keep2 = [a for a in keep if not (lambda l_: l_ is not None and l_ > ehi)(bounds(a, facts, 1, _fl=fl)[0])]
+                    keep = keep2 or keep
+                if len(keep) == 1:
+                    v = v - Lin({at: coef}) + keep[0].scale(coef)
+                    continue
                 for i, a in enumerate(at[1]):
                     others = [b for j, b in enumerate(at[1]) if j != i]
                     if all((lambda lo_: lo_ is not None and lo_ >= 0)(bounds((b - a) if at[0] == "min" else (a - b), facts, 1, _fl=fl)[0]) for b in others):
@@ -698,14 +744,15 @@ def bounds(v, facts, depth=0, _simple_only=False, _fl=None):
         if v.is_const():
             return v.c, v.c
     lo = hi = None
-    # direct: v = g + c  for a fact g >= 0   /   v = -g + c
-    for g in fl:
-        d = v - g
-        if d.is_const():
-            lo = d.c if lo is None else max(lo, d.c)
-        d = v + g
-        if d.is_const():
-            hi = d.c if hi is None else min(hi, d.c)
+    # direct: v = g + c  for a fact g >= 0   /   v = -g + c   (also for the form before an extreme was resolved: the facts may speak about that)
+    for vv in ((v, v0) if v0 is not v else (v,)):
+        for g in fl:
+            d = vv - g
+            if d.is_const():
+                lo = d.c if lo is None else max(lo, d.c)
+            d = vv + g
+            if d.is_const():
+                hi = d.c if hi is None else min(hi, d.c)
     # two facts chained (transitivity):  v = g1 + g2 + c
     if depth <= 1 and len(fl) <= 60:
         vat = set(v.t)
@@ -1018,7 +1065,8 @@ def free_symbols(*vals):
 # ====================================================================================================================== engine
 IDENT_CALLS = {"np.atleast_1d", "np.asarray", "np.array", "np.atleast_2d", "np.ascontiguousarray", "numpy.asarray", "numpy.atleast_1d", "list", "tuple",
                "np.ravel", "np.asanyarray", "np.squeeze", "np.copy", "np.asfarray", "numpy.array", "numpy.ravel"}
-IDENT_METHODS = {"ravel", "flatten", "copy", "tolist", "squeeze", "to_numpy"}
+IDENT_METHODS = {"ravel", "flatten", "copy", "tolist", "squeeze", "to_numpy", "astype", "view"}
+DATA_FIRST = {"np.asarray", "np.array", "np.asanyarray", "np.ascontiguousarray", "numpy.asarray", "numpy.array", "np.asfarray"}       # (data, dtype, ...)
 
 
 def origin(v):
@@ -1028,8 +1076,14 @@ def origin(v):
             if v[1] in IDENT_CALLS and len(v[2]) == 1:
                 v = v[2][0]
                 continue
-            if v[1].startswith(".") and v[1][1:] in IDENT_METHODS and len(v[2]) == 1:
+            if v[1] in DATA_FIRST and len(v[2]) == 2 and not isinstance(v[2][1], (Lin, S)):
+                v = v[2][0]             # np.asarray(x, float)
+                continue
+            if v[1].startswith(".") and v[1][1:] in IDENT_METHODS and (len(v[2]) == 1 or v[1][1:] in ("astype", "view")):
                 v = v[2][0]
+                continue
+            if v[1] in (".reshape", "np.reshape") and len(v[2]) == 2 and v[2][1] in (Lin(c=-1), ("tuple", (Lin(c=-1),))):
+                v = v[2][0]             # x.reshape(-1) is x.ravel()
                 continue
         if isinstance(v, tuple) and v and v[0] == "attr" and v[2] == "values":
             v = v[1]            # DataFrame.values has the shape of the frame
@@ -1623,43 +1677,56 @@ class Engine:
         ifexps += [n.slice for root in nodes for n in ast.walk(root) if isinstance(n, ast.Subscript) and _is_test_node(n.slice)
                    and isinstance(n.value, (ast.Tuple, ast.List)) and len(n.value.elts) == 2]
         states = [st]
-        # lookups in a literal table keyed by conditions:  TABLE[wide, extra]
-        for root in nodes:
-            for n in ast.walk(root) if isinstance(root, ast.AST) else ():
-                if isinstance(n, ast.Subscript) and isinstance(n.value, (ast.Name, ast.Dict)) and not isinstance(n.slice, ast.Slice):
+
+        def fork_on(tests, states):
+            for ie_test in tests:
+                nxt = []
+                for s in states:
                     try:
-                        b = self.ev(n.value, st) if isinstance(n.value, ast.Name) else None
+                        t = self.ev(ie_test, s)
                     except Unsupported:
-                        b = None
-                    if isinstance(n.value, ast.Dict) or (isinstance(b, tuple) and b[:1] == ("dict",)):
-                        ifexps += [_Val.of(c) for c in self._key_tests(n.slice, st)]
-        for ie_test in ifexps:
+                        nxt.append(s)
+                        continue
+                    r = self.decide(t, s)
+                    if r is not None:
+                        nxt.append(s)
+                        continue
+                    a, b = s, s.fork()
+                    a.add_fact(t, True)
+                    b.add_fact(t, False)
+                    nxt.extend((a, b))
+                states = nxt
+            return states
+        states = fork_on(ifexps, states)
+        # lookups in a literal table keyed by conditions, TABLE[wide, extra]: the conditions are read in each state (a conditional expression inside
+        # the key is decided by then)
+        tables = [n for root in nodes for n in (ast.walk(root) if isinstance(root, ast.AST) else ())
+                  if isinstance(n, ast.Subscript) and isinstance(n.value, (ast.Name, ast.Dict)) and not isinstance(n.slice, ast.Slice)]
+        for n in tables:
             nxt = []
             for s in states:
                 try:
-                    t = self.ev(ie_test, s)
+                    b = self.ev(n.value, s)
                 except Unsupported:
+                    b = None
+                if isinstance(b, tuple) and b[:1] == ("dict",):
+                    nxt.extend(fork_on([_Val.of(c) for c in self._key_tests(n.slice, s, self._bool_positions(b))], [s]))
+                else:
                     nxt.append(s)
-                    continue
-                r = self.decide(t, s)
-                if r is not None:
-                    nxt.append(s)
-                    continue
-                a, b = s, s.fork()
-                a.add_fact(t, True)
-                b.add_fact(t, False)
-                nxt.extend((a, b))
             states = nxt
         return states
 
-    def _key_tests(self, sl, st):
-        """the truth values among the components of a lookup key"""
+    def _key_tests(self, sl, st, boolpos=None):
+        """the truth values among the components of a lookup key (any non-constant component where the table's keys are True / False)"""
         try:
             v = self.index(sl, st)
         except Unsupported:
             return []
-        comps = list(v[1]) if isinstance(v, tuple) and v[:1] == ("tuple",) else [v]
-        return [c for c in comps if isinstance(c, tuple) and c[:1] in (("cmp",), ("not",), ("bool",), ("in",))]
+        if isinstance(v, tuple) and v[:1] == ("tuple",):
+            comps = [(c, isinstance(boolpos, dict) and boolpos.get(i)) for i, c in enumerate(v[1])]
+        else:
+            comps = [(v, boolpos is True)]
+        return [c for c, isb in comps if isinstance(c, tuple) and (c[:1] in (("cmp",), ("not",), ("bool",), ("in",)) or (isb and not _is_k(c) and not isinstance(c, (Lin, S))))]
 
     def simple(self, node, st):
         if isinstance(node, ast.Assign):
@@ -2161,17 +2228,30 @@ class Engine:
             return None
         return ("slice", b0, a + lo, nh, step)
 
-    def _key_norm(self, idx, st):
+    def _key_norm(self, idx, st, boolpos=None):
         """a lookup key with its truth-valued components decided where the facts decide them"""
         if isinstance(idx, tuple) and idx[:1] == ("tuple",):
-            return ("tuple", tuple(self._key_norm(x, st) for x in idx[1]))
-        if isinstance(idx, tuple) and idx[:1] in (("cmp",), ("not",), ("bool",), ("in",)):
+            return ("tuple", tuple(self._key_norm(x, st, (boolpos or {}).get(i) if isinstance(boolpos, dict) else None) for i, x in enumerate(idx[1])))
+        if isinstance(idx, tuple) and (idx[:1] in (("cmp",), ("not",), ("bool",), ("in",)) or (boolpos is True and not _is_k(idx))):
             r = self.decide(idx, st)
             return ("k", r) if r is not None else idx
         return idx
 
+    @staticmethod
+    def _bool_positions(table):
+        """which key positions of a literal table hold True / False: {position: True} for tuple keys, True for plain boolean keys, None otherwise"""
+        keys = [k for k, _ in table[1]]
+        isb = lambda k: _is_k(k) and isinstance(k[1], bool)
+        if keys and all(isb(k) for k in keys):
+            return True
+        if keys and all(isinstance(k, tuple) and k[:1] == ("tuple",) for k in keys):
+            n = len(keys[0][1])
+            if all(len(k[1]) == n for k in keys):
+                return {i: True for i in range(n) if all(isb(k[1][i]) for k in keys)} or None
+        return None
+
     def _lookup(self, table, idx, st):
-        key = self._key_norm(idx, st)
+        key = self._key_norm(idx, st, self._bool_positions(table))
         for k, v in table[1]:
             if k == key:
                 return v
@@ -2398,6 +2478,8 @@ class Engine:
                 on = type(op).__name__
                 if on in ("In", "NotIn"):
                     elts = None
+                    if isinstance(b, tuple) and b and b[0] == "dict":
+                        b = ("tuple", tuple(k for k, _ in b[1]))
                     if isinstance(b, tuple) and b and b[0] in ("tuple", "set"):
                         elts = tuple(sorted(b[1], key=repr))
                         if elts and all(isinstance(x, Lin) or (_is_k(x) and isinstance(x[1], float) and x[1] == int(x[1])) for x in elts) and not isinstance(a, S):
@@ -2561,7 +2643,7 @@ class Engine:
                 args.append(v)
         kws = {k.arg: self.ev(k.value, st) for k in node.keywords if k.arg is not None}
         res = self._call_value(node, st, name, recv, attr, args, kws)
-        self.emit(st, "call", node, name=name, recv=recv, attr=attr, args=args, kws=kws, value=res)
+        ev0 = self.emit(st, "call", node, name=name, recv=recv, attr=attr, args=args, kws=kws, value=res)
         # other spellings of `f.write(text)`
         if name == "print" and "file" in kws and not any(isinstance(a, tuple) and a[:1] == ("star",) for a in args):
             sep, end = kws.get("sep", S((("lit", " "),))), kws.get("end", S((("lit", "\n"),)))
@@ -2569,10 +2651,15 @@ class Engine:
                 text = S(())
                 for i, a in enumerate(args):
                     text = text + (sep if i else S(())) + as_S(a)
+                ev0.d["modelled"] = True
                 self.emit(st, "call", node, name=None, recv=kws["file"], attr="write", args=[text + end], kws={}, value=("k", None))
         elif attr == "writelines" and len(args) == 1 and isinstance(args[0], tuple) and args[0][:1] == ("tuple",) and all(self.is_str(a) for a in args[0][1]):
+            ev0.d["modelled"] = True
             for a in args[0][1]:
                 self.emit(st, "call", node, name=None, recv=recv, attr="write", args=[as_S(a)], kws={}, value=("k", None))
+        elif attr == "writelines" and len(args) == 1 and isinstance(args[0], tuple) and args[0][:1] == ("comp",) and isinstance(args[0][1], S):
+            ev0.d["modelled"] = True
+            self.emit(st, "call", node, name=None, recv=recv, attr="write", args=[S((("join", "", args[0]),))], kws={}, value=("k", None))
         # a list held by a local: append / extend / insert are followed (inside a loop that is not unrolled the name is a loop symbol, not a list)
         if attr in ("append", "extend", "insert") and isinstance(node.func.value, ast.Name) and not kws:
             cur = st.env.get(node.func.value.id)
@@ -2627,6 +2714,17 @@ class Engine:
                 if isinstance(recv, S) and len(recv.p) == 1 and recv.p[0][0] == "fv" and recv.p[0][1] == "":
                     return S((("fv", f"{al}{ival(lin(args[0]))}", recv.p[0][2], recv.p[0][3]),))        # str(x).rjust(n)
                 return S((("fv", f"{al}{ival(lin(args[0]))}s", recv, role_of(node.func.value)),))
+        if name == "bool" and nargs == 1 and not kws:
+            return args[0] if not isinstance(args[0], (Lin, S)) else ("not", ("cmp", "Eq", Lin(), args[0])) if isinstance(args[0], Lin) else ("k", bool(args[0].p))
+        if name == "map" and nargs >= 2 and not kws and isinstance(args[0], tuple) and args[0][:1] == ("attr",) and args[0][2] == "format" and self.is_str(args[0][1]):
+            # map(template.format, a, b)  is  (template.format(x, y) for x, y in zip(a, b))
+            self.loopseq += 1
+            lid = self.loopseq
+            k = ("sym", f"<k>@L{lid}")
+            it = ("op", "zip", tuple(args[1:])) if nargs > 2 else args[1]
+            elems = tuple(("elem", a, lin(k)) for a in args[1:])
+            elt = self.format(as_S(args[0][1]), list(elems), {}, node, st)
+            return ("comp", elt, it, ("tuple", elems) if nargs > 2 else elems[0], lid)
         if name == "str" and nargs == 1 and not kws:
             if isinstance(args[0], S):
                 return args[0]
@@ -2692,7 +2790,11 @@ class Engine:
             if n is not None:
                 return n
             return lin(("len", v))
+        if isinstance(v, tuple) and v[:2] == ("op", "T") and len(v[2]) == 1:
+            return lin(("dim", origin(v[2][0]), 1))         # the rows of m.T are the columns of m
         if isinstance(v, tuple) and v and v[0] == "elem" and isinstance(v[2], Lin):
+            if isinstance(v[1], tuple) and v[1][:2] == ("op", "T") and len(v[1][2]) == 1:
+                return lin(("len", origin(v[1][2][0])))     # a row of m.T is a column of m
             return lin(("dim", origin(v[1]), 1))          # the length of a row of a 2-D array
         if isinstance(v, tuple) and v and v[0] == "elem" and isinstance(v[2], tuple) and v[2][:1] == ("tuple",) and len(v[2][1]) == 2:
             full = ("sl", Lin(), ("k", None), Lin(c=1))
